@@ -38,6 +38,7 @@ class Opts:
         self.one_closed_enum_per_decl = False
         self.no_body = False
         self.max_literal = None
+        self.narrow_counts = False     # size/count fields below 24 bits (C++ F8)
         self.java_safe = False         # stay clear of the Java back end's known defects (see known_findings.json)
         self.__dict__.update(kw)
 
@@ -203,6 +204,8 @@ class Gen:
         c = [1, 2, 3, 4, 5, 7, 8, 8, 9, 12, 16, 16, 24, 32]
         if self.o.java_safe:
             c = [3, 4, 5, 7, 8, 8, 12, 16]
+        if self.o.narrow_counts:
+            c = [x for x in c if x < 24]
         if self.o.wide_size_fields:
             c += [63, 64]
         return self.rng.choice(c)
@@ -537,6 +540,8 @@ def stratified(rng, opts=None):
     elems = ["scalar8", "scalar", "enum", "sstatic", "sdyn"] + (["sesize"] if o.elementsize else [])
     if not o.struct_arrays:
         elems = [e for e in elems if not e.startswith("s") or e.startswith("scalar")]
+    if not o.enum_arrays:
+        elems = [e for e in elems if e != "enum"]
     cells = []
     for el in elems:
         for sh in ("static", "count", "size", "unknown"):
